@@ -210,8 +210,26 @@ pub mod shim {
             (1u8 << 5) == 0x20u8,
             (1u8 << 6) == 0x40u8,
             (1u8 << 7) == 0x80u8,
+            forall|x: usize| #[trigger] (x as u8) == x % 256,
+            forall|x: usize| #[trigger] (x as u16) == x % 65536,
+            forall|x: usize| #[trigger] (x as u32) == x % 0x1_0000_0000,
+            forall|x: u64| #[trigger] (x as u8) == x % 256,
+            forall|x: u64| #[trigger] (x as u16) == x % 65536,
+            forall|x: u64| #[trigger] (x as u32) == x % 0x1_0000_0000,
+            forall|x: u32| #[trigger] (x as u8) == x % 256,
+            forall|x: u32| #[trigger] (x as u16) == x % 65536,
+            forall|x: u16| #[trigger] (x as u8) == x % 256,
             (1usize << 24) == 0x1000000usize, (1u32 << 16) == 0x10000u32, (1u32 << 8) == 0x100u32,
     {
+        assert(forall|x: usize| #[trigger] (x as u8) == x % 256) by(bit_vector);
+        assert(forall|x: usize| #[trigger] (x as u16) == x % 65536) by(bit_vector);
+        assert(forall|x: usize| #[trigger] (x as u32) == x % 0x1_0000_0000) by(bit_vector);
+        assert(forall|x: u64| #[trigger] (x as u8) == x % 256) by(bit_vector);
+        assert(forall|x: u64| #[trigger] (x as u16) == x % 65536) by(bit_vector);
+        assert(forall|x: u64| #[trigger] (x as u32) == x % 0x1_0000_0000) by(bit_vector);
+        assert(forall|x: u32| #[trigger] (x as u8) == x % 256) by(bit_vector);
+        assert(forall|x: u32| #[trigger] (x as u16) == x % 65536) by(bit_vector);
+        assert(forall|x: u16| #[trigger] (x as u8) == x % 256) by(bit_vector);
         assert(forall|x: usize| #[trigger] (x & 0xffff) == x % 0x10000) by(bit_vector);
         assert(forall|x: usize| #[trigger] (x & 0xff) == x % 256) by(bit_vector);
         assert(forall|x: usize| #[trigger] (x >> 8) == x / 256) by(bit_vector);
@@ -482,6 +500,8 @@ pub mod shim {
         ensures r == (match *a { IpAddr::V4(_) => true, IpAddr::V6(_) => false });
     pub assume_specification [IpAddr::is_ipv6] (a: &IpAddr) -> (r: bool)
         ensures r == (match *a { IpAddr::V4(_) => false, IpAddr::V6(_) => true });
+    pub assume_specification<'a, 'b, T: Clone> [ <Vec<T> as From<&'a [T]>>::from ] (s: &'b [T]) -> (r: Vec<T>)
+        ensures r@ == s@;
     // std Option/Result combinators without a vstd specification (semantics as documented in std; closures enter
     // through their own requires/ensures, which rule R32 writes for expression closures and Verus checks)
     pub assume_specification<T, F: FnOnce(&T) -> bool>[ Option::<T>::filter::<F> ](o: Option<T>, f: F) -> (r: Option<T>)
